@@ -1,7 +1,157 @@
-(* C11 — property theorems (placeholder while the proofs are being written) *)
-From Coq Require Import ZArith List.
-From GeosV.C11 Require Import WKBDefs WKTDefs.
+(* C11 — property theorems only. Each is closed by `exact <lemma>` and followed by Print Assumptions; Examples show the
+   statements are not vacuous and exhibit the findings (F14: undefined behaviour on an empty compound-curve section;
+   F2: depth, allocation and setSRID work grow with the nesting depth, which nothing bounds on the unchanged tree). *)
+From Coq Require Import ZArith List Bool Ascii String Lia.
+From GeosV.C11 Require Import WKBDefs WKBProofs WKTDefs WKTProofs GenTie GenPreludeWKB.
+From GeosV.Gen Require Import C11_minMemSize.
 Import ListNotations.
 Local Open Scope Z_scope.
-Example ex_point : final_stats (wkb_read cfg_unchanged [1;1;0;0;0; 0;0;0;0;0;0;240;63; 0;0;0;0;0;0;240;63]) = Some (mkStats 21 1 0 1 1 2).
+
+(* ================================================================= WKB / HEX reader *)
+
+(* read_total / fuel_sufficient: on every byte string the reader model terminates with a result; fuel |input|+1 is never exhausted *)
+Theorem C11_wkb_read_total : forall c input, bytes_ok input -> wkb_read c input <> Fuel.
+Proof. exact fuel_sufficient. Qed.
+Print Assumptions C11_wkb_read_total.
+
+(* read_in_bounds: every bounds check is made on the counter `end - buf` and every read on the bytes themselves; no read is
+   ever outside the input (outcome EOob), and the stream position never passes the end *)
+Theorem C11_wkb_read_in_bounds : forall c input, bytes_ok input ->
+  (forall t, wkb_read c input <> Err EOob t) /\
+  (forall t, final_stats (wkb_read c input) = Some t -> 0 <= pos t <= Z.of_nat (List.length input)).
+Proof. exact read_in_bounds. Qed.
+Print Assumptions C11_wkb_read_in_bounds.
+
+(* alloc_linear (coordinates) + what is true of the vector slots and of GeometryCollection::setSRID + depth_bound:
+     coordinates allocated   <= |input| / 16        (minMemSize is checked before every allocation)
+     vector slots allocated  <= |input| * depth / 4  — NOT linear: every nested count is validated against the same bytes
+     nodes                   <= |input| / 5
+     setSRID visits          <= 2 * nodes * depth    — NOT linear
+     depth                   <= |input| / 9 + 1      — linear in the input: no stack bound can be promised without a limit *)
+Theorem C11_wkb_accounting : forall c input, bytes_ok input -> forall t, final_stats (wkb_read c input) = Some t ->
+  16 * coords t <= Z.of_nat (List.length input) /\
+  4 * slots t <= Z.of_nat (List.length input) * dmax t /\
+  5 * nodes t <= Z.of_nat (List.length input) /\
+  quad t <= 2 * nodes t * dmax t /\
+  1 <= dmax t /\ 9 * (dmax t - 1) <= Z.of_nat (List.length input) /\
+  0 <= coords t /\ 0 <= slots t /\ 0 <= nodes t /\ 0 <= quad t.
+Proof. exact accounting. Qed.
+Print Assumptions C11_wkb_accounting.
+
+(* with the nesting limit m of the candidate fix: depth <= m + 1, and slots and setSRID work become linear in |input| *)
+Theorem C11_wkb_depth_limited : forall c input, bytes_ok input -> forall m t, max_depth c = Some m -> 0 <= m ->
+  final_stats (wkb_read c input) = Some t ->
+  dmax t <= m + 1 /\ 4 * slots t <= Z.of_nat (List.length input) * (m + 1) /\ 5 * quad t <= 2 * Z.of_nat (List.length input) * (m + 1).
+Proof. exact depth_limited. Qed.
+Print Assumptions C11_wkb_depth_limited.
+
+(* ctor_guards: with the empty-section guard of the candidate fix no input makes a constructor index an empty sequence *)
+Theorem C11_wkb_ctor_guards : forall c input, bytes_ok input -> cc_guard c = true -> forall t, wkb_read c input <> Err EUB t.
+Proof. exact ctor_guards. Qed.
+Print Assumptions C11_wkb_ctor_guards.
+
+(* tie G: the translated WKBReader::minMemSize is the model's pre-allocation check *)
+Theorem C11_minMemSize_tie : forall r tid n, gen_minMemSize (Some r) tid n = if r <? n * mm_mult tid then None else Some r.
+Proof. exact gen_minMemSize_eq. Qed.
+Print Assumptions C11_minMemSize_tie.
+
+(* ---- witnesses ---- *)
+Definition u32le (v : Z) : list Z := [v mod 256; (v / 256) mod 256; (v / 65536) mod 256; (v / 16777216) mod 256].
+Definition hdr (code n : Z) : list Z := 1 :: u32le code ++ u32le n.
+Fixpoint chain (code : Z) (count : nat -> Z) (n : nat) (tail : list Z) : list Z :=
+  match n with O => tail | S k => hdr code (count n) ++ chain code count k tail end.
+Definition f64 (hi : Z) : list Z := [0; 0; 0; 0; 0; 0; hi mod 256; hi / 256].       (* 0, 1.0 = 0x3FF0.. *)
+
+(* compound_empty_section (F14): COMPOUNDCURVE(LINESTRING EMPTY, (0 0, 1 1)), 59 bytes *)
+Definition f14_wkb : list Z :=
+  hdr 9 2 ++ hdr 2 0 ++ hdr 2 2 ++ f64 0 ++ f64 0 ++ f64 16368 ++ f64 16368.
+Example C11_compound_empty_section_refuted :
+  List.length f14_wkb = 59%nat /\ bytes_ok f14_wkb /\
+  (exists t, wkb_read cfg_unchanged f14_wkb = Err EUB t) /\
+  (exists t, wkb_read (mkCfg None true) f14_wkb = Err ECtor t).
+Proof.
+  split; [reflexivity|]. split; [apply bytes_okb_ok; vm_compute; reflexivity|].
+  split; eexists; vm_compute; reflexivity.
+Qed.
+
+(* a valid input is accepted, with the expected accounting (non-vacuity of the theorems above) *)
+Definition ex_coll : list Z := hdr 7 2 ++ (hdr 1 0 (* POINT: the "count" word is really X's first half *) ) ++ [0;0;0;0; 0;0;0;0; 0;0;0;0]
+                               ++ hdr 2 2 ++ f64 0 ++ f64 0 ++ f64 16368 ++ f64 16368.
+Example ex_coll_read : final_stats (wkb_read cfg_unchanged ex_coll) = Some (mkStats 71 3 2 3 2 10) /\ bytes_ok ex_coll.
+Proof. split; [vm_compute; reflexivity|apply bytes_okb_ok; vm_compute; reflexivity]. Qed.
+
+(* depth_bound is tight: n + 1 nested collection headers (9 (n + 1) bytes) reach depth n + 1 and are accepted *)
+Example C11_depth_tight :
+  let input := chain 7 (fun _ => 1) 40 (hdr 7 0) in
+  List.length input = 369%nat /\ option_map dmax (final_stats (wkb_read cfg_unchanged input)) = Some 41 /\
+  (exists g s, wkb_read cfg_unchanged input = Ok g s).
+Proof. split; [vm_compute; reflexivity|]. split; [vm_compute; reflexivity|]. do 2 eexists. vm_compute. reflexivity. Qed.
+
+(* alloc is NOT linear (F2): each of n nested headers claims all the children the remaining bytes allow; the slots allocated
+   before the reader fails are about |input|^2 / 162.  Doubling the input quadruples the allocation. *)
+Definition inflated (n : nat) : list Z := chain 7 (fun k => Z.of_nat k - 1) n (hdr 7 0).
+Example C11_alloc_not_linear :
+  (List.length (inflated 60), option_map slots (final_stats (wkb_read cfg_unchanged (inflated 60)))) = (549%nat, Some 1770) /\
+  (List.length (inflated 120), option_map slots (final_stats (wkb_read cfg_unchanged (inflated 120)))) = (1089%nat, Some 7140) /\
+  (List.length (inflated 240), option_map slots (final_stats (wkb_read cfg_unchanged (inflated 240)))) = (2169%nat, Some 28680).
+Proof. repeat split; vm_compute; reflexivity. Qed.
+(* ... and so is the work of GeometryCollection::setSRID on an accepted chain *)
+Example C11_setsrid_work_not_linear :
+  let w n := option_map quad (final_stats (wkb_read cfg_unchanged (chain 7 (fun _ => 1) n (hdr 7 0)))) in
+  (w 50%nat, w 100%nat, w 200%nat) = (Some 2652, Some 10302, Some 40602).
 Proof. vm_compute. reflexivity. Qed.
+(* with the nesting limit the same inputs are cut off at depth m + 1 *)
+Example C11_limit_cuts :
+  option_map dmax (final_stats (wkb_read (mkCfg (Some 20) true) (inflated 240))) = Some 21.
+Proof. vm_compute. reflexivity. Qed.
+
+(* ================================================================= WKT reader *)
+
+Theorem C11_wkt_read_total : forall numval c input, wkt_read numval c input <> WFuel.
+Proof. exact wkt_fuel_sufficient. Qed.
+Print Assumptions C11_wkt_read_total.
+
+Theorem C11_wkt_read_in_bounds : forall numval c input t, wfinal_stats (wkt_read numval c input) = Some t ->
+  0 <= wpos t <= Z.of_nat (List.length input).
+Proof. exact wkt_in_bounds. Qed.
+Print Assumptions C11_wkt_read_in_bounds.
+
+(* tokens <= |input| + 1; coordinates <= tokens / 2; elements, nodes <= tokens; depth <= tokens + 1 (linear: no stack bound);
+   setSRID visits <= nodes * (depth + 1) (not linear) *)
+Theorem C11_wkt_accounting : forall numval c input t, wfinal_stats (wkt_read numval c input) = Some t ->
+  wtoks t <= Z.of_nat (List.length input) + 1 /\ 2 * wcoords t <= wtoks t /\ welems t <= wtoks t /\ wnodes t <= wtoks t /\
+  wquad t <= wnodes t * (wdmax t + 1) /\ wdmax t <= wtoks t + 1 /\
+  0 <= wcoords t /\ 0 <= welems t /\ 0 <= wnodes t /\ 0 <= wquad t /\ 0 <= wdmax t.
+Proof. exact wkt_accounting. Qed.
+Print Assumptions C11_wkt_accounting.
+
+Theorem C11_wkt_depth_limited : forall numval c input m t, max_depth c = Some m -> 0 <= m ->
+  wfinal_stats (wkt_read numval c input) = Some t -> wdmax t <= m + 1.
+Proof. exact wkt_depth_limited. Qed.
+Print Assumptions C11_wkt_depth_limited.
+
+Theorem C11_wkt_ctor_guards : forall numval c input, cc_guard c = true -> forall t, wkt_read numval c input <> WErr EUB t.
+Proof. exact wkt_ctor_guards. Qed.
+Print Assumptions C11_wkt_ctor_guards.
+
+(* ---- witnesses (numval: a toy strtod for the digits 0..9, enough for the examples) ---- *)
+Definition toy_numval (w : list ascii) : Z :=
+  match w with
+  | [ch] => if Ascii.eqb ch "0" then 0 else if Ascii.eqb ch "1" then 4607182418800017408 else 4611686018427387904
+  | _ => 4611686018427387904
+  end.
+Definition txt (s : string) : list ascii := list_ascii_of_string s.
+Example C11_wkt_compound_empty_section_refuted :
+  (exists t, wkt_read toy_numval cfg_unchanged (txt "COMPOUNDCURVE(EMPTY,(0 0,1 1))") = WErr EUB t) /\
+  (exists t, wkt_read toy_numval (mkCfg None true) (txt "COMPOUNDCURVE(EMPTY,(0 0,1 1))") = WErr ECtor t).
+Proof. split; eexists; vm_compute; reflexivity. Qed.
+Example ex_wkt_read :
+  wfinal_stats (wkt_read toy_numval cfg_unchanged (txt "GEOMETRYCOLLECTION Z (POINT Z(1 1 0), MULTICURVE Z ((0 0 0,1 1 1), CIRCULARSTRING Z EMPTY))"))
+  = Some (mkWS 91 29 3 4 5 3 11).
+Proof. vm_compute. reflexivity. Qed.
+Fixpoint nest (n : nat) (inner : string) : string :=
+  match n with O => inner | S k => ("MULTICURVE(" ++ nest k inner ++ ")")%string end.
+Example C11_wkt_depth_linear :
+  option_map wdmax (wfinal_stats (wkt_read toy_numval cfg_unchanged (txt (nest 30 "(0 0,1 1)")))) = Some 30 /\
+  option_map wdmax (wfinal_stats (wkt_read toy_numval (mkCfg (Some 10) true) (txt (nest 30 "(0 0,1 1)")))) = Some 11.
+Proof. split; vm_compute; reflexivity. Qed.
